@@ -442,11 +442,14 @@ func NewServerSession(ctx context.Context, location, origin jid.JID, rw io.ReadW
 // ReceiveServerSession attempts to use an existing connection (or any
 // io.ReadWriter) to negotiate an XMPP server-to-server session from the
 // receiving server's perspective.
+// Location is the local server's address and origin the address of the remote
+// server; if either is the zero value it is taken from the stream header of the
+// remote server, otherwise a stream header naming another address is refused.
 // If the provided context is canceled before stream negotiation is complete an
 // error is returned.
 // After stream negotiation if the context is canceled it has no effect.
 func ReceiveServerSession(ctx context.Context, location, origin jid.JID, rw io.ReadWriter, features ...StreamFeature) (*Session, error) {
-	return ReceiveSession(ctx, rw, S2S, NewNegotiator(func(*Session, *StreamConfig) StreamConfig {
+	return negotiateSession(ctx, location, origin, rw, Received|S2S, NewNegotiator(func(*Session, *StreamConfig) StreamConfig {
 		return StreamConfig{
 			Features: features,
 		}
